@@ -97,6 +97,11 @@ func (p *BinaryProtocol) skipstr() error {
 	return nil
 }
 
+// skippable tells if t is a type code that SkipGo can skip
+func skippable(t Type) bool {
+	return typeSize[t] > 0 || t == STRING || t == STRUCT || t == MAP || t == SET || t == LIST
+}
+
 // SkipGo skips over the value for the given type using Go implementation.
 func (p *BinaryProtocol) SkipGo(fieldType Type, maxDepth int) error {
 	if maxDepth <= 0 {
@@ -140,6 +145,10 @@ func (p *BinaryProtocol) SkipGo(fieldType Type, maxDepth int) error {
 		if sz < 0 {
 			return errInvalidDataSize
 		}
+		if sz == 0 && !(skippable(kt) && skippable(vt)) {
+			// no element will tell that its type is invalid
+			return errInvalidDataType
+		}
 		ksz, vsz := typeSize[kt], typeSize[vt]
 		if ksz > 0 && vsz > 0 {
 			return p.skipn(int(sz) * (ksz + vsz))
@@ -175,6 +184,10 @@ func (p *BinaryProtocol) SkipGo(fieldType Type, maxDepth int) error {
 		vt, sz := Type(b[0]), int32(binary.BigEndian.Uint32(b[1:]))
 		if sz < 0 {
 			return errInvalidDataSize
+		}
+		if sz == 0 && !skippable(vt) {
+			// no element will tell that its type is invalid
+			return errInvalidDataType
 		}
 		if typeSize[vt] > 0 {
 			return p.skipn(int(sz) * typeSize[vt])
